@@ -102,9 +102,15 @@ def check_lookup(case, ctx):
         if cur.extended_private_key() != node.extended_private_key():
             raise Violation("C17/lookup/differs-from-iterated-ckd", "by_path(%r) != iterated ckd over %r" % (s, L))
         # BIP85 entropy lookup by path string
+        # BIP85 itself only defines hardened paths: entropy(path) may refuse a path, but must never use another one
         st_, e = call(w.bip85.entropy, s)
-        if st_ == "exc" or e != R85.entropy(rm, L):
-            raise Violation("C17/lookup/bip85-entropy", "bip85.entropy(%r) = %r" % (s, e))
+        if st_ == "exc":
+            ctx.count("bip85-entropy-refused-path[%s]" % ("all-hardened" if all(i >= H for i in L) else "has-normal-component"))
+            if L and all(i >= H for i in L) and case["root"] == "m":
+                raise Violation("C17/lookup/bip85-entropy-refused", "bip85.entropy(%r) (fully hardened) raised %r" % (s, e))
+        elif e != R85.entropy(rm, L):
+            raise Violation("C17/lookup/bip85-entropy", "bip85.entropy(%r) = %r, the node at that path gives %s"
+                            % (s, e, R85.entropy(rm, L).hex()))
 
 
 # ------------------------------------------------------------------------------------ malformed
